@@ -19,6 +19,11 @@ Fixpoint push_group (n : nat) (ds : list (term * term)) (j : nat) (G : ctx) : ct
   match ds with [] => G | (a, d) :: r => push_group n r (S j) ((a, n - j, Some d) :: G) end.
 Definition enter (ds : list (term * term)) (G : ctx) : ctx := push_group (length ds) ds 0 G.
 
+(* entering a group with the definitions hidden (the variables of the group are opaque) *)
+Fixpoint push_group_o (n : nat) (ds : list (term * term)) (j : nat) (G : ctx) : ctx :=
+  match ds with [] => G | (a, d) :: r => push_group_o n r (S j) ((a, n - j, None) :: G) end.
+Definition enter_o (ds : list (term * term)) (G : ctx) : ctx := push_group_o (length ds) ds 0 G.
+
 (* ---------- the group operations of normalizer.rs / type_checker.rs, hole-free (Model A) ---------- *)
 Definition unfold_def := unfold_first.
 Fixpoint open_from (j i idx : nat) (u : term) (ds : list (term * term)) : list (term * term) :=
@@ -80,8 +85,11 @@ Inductive conv (G : ctx) : term -> term -> Prop :=
 | c_if c c' a a' b b' : conv G c c' -> conv G a a' -> conv G b b' -> conv G (TIf c a b) (TIf c' a' b')
 | c_let ds ds' b b' :                                      (* annotations of definitions irrelevant, as for c_lam:
                                                                syntactically_equal compares definitions and bodies only *)
-    Forall2 (fun p q => conv (enter ds G) (snd p) (snd q)) ds ds' ->
-    conv (enter ds G) b b' -> conv G (TLet ds b) (TLet ds' b').
+    (* two groups are compared with their own variables OPAQUE: with the definitions visible (`enter ds G`) the
+       delta rule could be run backwards inside the group and every two terms would be convertible
+       (Proofs/ConvCollapse.v keeps that derivation as a regression for the rule as first written) *)
+    Forall2 (fun p q => conv (enter_o ds G) (snd p) (snd q)) ds ds' ->
+    conv (enter_o ds G) b b' -> conv G (TLet ds b) (TLet ds' b').
 
 (* ---------- typing ---------- *)
 Inductive has_type (G : ctx) : term -> term -> Prop :=
